@@ -381,6 +381,7 @@ def run(ctx):
         share(ctx, "C19", ("R19.1",), "R03.7", "env::get obligations shared with C19", 4)
         # the first-ranked source is available for every value: a well-formed --name=value token is never rejected for its value
         share(ctx, "C02", ("R02.4",), "R03.7", "token-syntax obligations shared with C02", 1)
+        share(ctx, "C11", ("R11.7",), "R03.7", "count-type obligations shared with C11 (a declared default above 1 arrives as declared when it is the source)", 1)
         ctx.rule("R03.9", "the declared default is what the lowest-ranked source delivers: nothing on the usage path rewrites it (R15.11 re-evaluated)")
         share(ctx, "C15", ("R15.11",), "R03.9", "usage-writes-nothing obligations shared with C15", 1)
     # ---- R03.8: the variable that is looked up is the variable that was bound: env_ holds the setter's argument verbatim
